@@ -192,6 +192,40 @@ def r01_3(prog, rep):
             for n_ in walk(c) if c is not None else ():
                 if n_.get("k") == "bin" and n_["op"] == "==" and lv(strip_casts(n_["l"])).endswith("->freq") and const_eval(f, n_["r"]) is not None:
                     on = lv(strip_casts(n_["l"]))
+    # single-definition locals and what they are defined from (`fq = rr->freq`, `cch = strm->cch`), and where locals are stored to
+    locs = {l_["n"] for l_ in f.locals}
+    defs, stored = {}, {}
+    for b, i, x, line in cfg.all_elems():
+        if isinstance(x, dict):
+            for l, kind, nn in writes(x):
+                rhs = nn.get("init") if kind == "decl" else (nn.get("r") if nn.get("k") == "bin" and nn["op"] == "=" else None)
+                if rhs is None:
+                    if lv(l) in locs:
+                        defs.setdefault(lv(l), set()).add(None)
+                    continue
+                r_ = strip_casts(cfg.resolve(rhs))
+                if lv(l) in locs:
+                    defs.setdefault(lv(l), set()).add(lv(r_) if r_.get("k") in ("mem", "ref") else None)
+                if r_.get("k") == "ref" and lv(r_) in locs:
+                    stored.setdefault(lv(r_), set()).add(lv(l))
+    alias = {v_: next(iter(d_)) for v_, d_ in defs.items() if len(d_) == 1 and None not in d_}
+    aliases = set()
+    if on is None:
+        # the discriminant hoisted into a local: `const echs_freq_t fq = rr->freq; if (fq == FREQ_YEARLY) ...`
+        for b in cfg.blocks:
+            c = cfg.cond(b)
+            for n_ in walk(c) if c is not None else ():
+                if n_.get("k") == "bin" and n_["op"] == "==" and const_eval(f, n_["r"]) is not None:
+                    v_ = lv(strip_casts(n_["l"]))
+                    if (alias.get(v_) or "").endswith("->freq"):
+                        on = alias[v_]
+                        aliases.add(v_)
+        for b, blk in cfg.blocks.items():
+            if blk.term and blk.term["kind"] == "switch":
+                v_ = lv(cfg.resolve(blk.term.get("on")))
+                if (alias.get(v_) or "").endswith("->freq"):
+                    on = alias[v_]
+                    aliases.add(v_)
     if on is None:
         raise AnalysisBroken("refill: dispatch on rr->freq not found")
     root = on.split("->")[0]
@@ -226,8 +260,11 @@ def r01_3(prog, rep):
                                 args.append(lv(a))
                         _seen.append((lv(l), r["fn"], args))
             return {on: val}        # re-asserted at every element: this walk is the one for that frequency
-        AbsWalk(f, {on}, init={on: val}, effect=effect, max_states=20000).run()
+        AbsWalk(f, {on} | aliases, init={on: val}, effect=effect, max_states=20000).run()
         key = "refill/%s" % en
+        # the count through a temporary that is stored to ->ncch and nowhere else; the cache through a local pointer to it
+        seen = [(next(iter(stored[s_[0]])) if len(stored.get(s_[0], ())) == 1 else s_[0], s_[1],
+                 [alias.get(s_[2][0], s_[2][0]) if isinstance(s_[2][0], str) else s_[2][0]] + list(s_[2][1:])) for s_ in seen if s_[2]]
         calls_ = sorted({(s_[0], s_[1], tuple(s_[2])) for s_ in seen})
         okrule = lambda a: a == root or (a.startswith("&") and a[1:] in copies)
         if len(calls_) == 1 and calls_[0][1] == "rrul_fill_" + sfx and calls_[0][0].endswith("->ncch") and \
